@@ -617,3 +617,4 @@ for _p in ("C11", "C17"):
     PROPS[_p]["rule"] += " Half of the concurrent cases run with schedule noise (yields and 30-250 us sleeps at lock boundaries and at the end of timed sections; DESIGN.md A.0, Hooks)."
 PROPS["C16"]["rule"] += (" Both parts also generate cron expressions without a future occurrence (which must never fire; refusing them is "
                          "fine) and, for crolt, absolute RFC3339 due times.")
+PROPS["C16"]["rule"] += " No job may fire inside a span in which the cron is certainly suspended (from the moment the loop has taken the suspend command to the call of Resume)."
